@@ -5,7 +5,7 @@
 #   (default: the property's own) against the changed tree (VERIF_REPO) and records everything in /verif/seeded/<CXX>-<n>/.
 ID=$1; N=$2; shift 2; CHECKS=${@:-$ID}
 lc=$(echo $ID | tr 'A-Z' 'a-z'); RT=/tmp/rt
-# candidates 1,2 come from the first round (/tmp/rt), 3,4 from the second round (/tmp/rt2), 5,6 from the third (/tmp/rt3), 7,8 from the fourth (/tmp/rt4), 9,10 from the fifth (/tmp/rt5), 11,12 from the sixth (/tmp/rt6), 13,14 from the seventh (/tmp/rt7), 15,16 from the eighth (/tmp/rt8), 17,18 from the ninth (/tmp/rt9), 19,20 from the tenth (/tmp/rt10)
+# candidates 1,2 come from the first round (/tmp/rt), 3,4 from the second round (/tmp/rt2), 5,6 from the third (/tmp/rt3), 7,8 from the fourth (/tmp/rt4), 9,10 from the fifth (/tmp/rt5), 11,12 from the sixth (/tmp/rt6), 13,14 from the seventh (/tmp/rt7), 15,16 from the eighth (/tmp/rt8), 17,18 from the ninth (/tmp/rt9), 19,20 from the tenth (/tmp/rt10), 21,22 from the eleventh (/tmp/rt11)
 [ "$N" -ge 3 ] && RT=/tmp/rt2
 [ "$N" -ge 5 ] && RT=/tmp/rt3
 [ "$N" -ge 7 ] && RT=/tmp/rt4
@@ -15,8 +15,9 @@ lc=$(echo $ID | tr 'A-Z' 'a-z'); RT=/tmp/rt
 [ "$N" -ge 15 ] && RT=/tmp/rt8
 [ "$N" -ge 17 ] && RT=/tmp/rt9
 [ "$N" -ge 19 ] && RT=/tmp/rt10
+[ "$N" -ge 21 ] && RT=/tmp/rt11
 OUT=$RT/$lc-out
-sfx=""; { [ "$N" = "2" ] || [ "$N" = "4" ] || [ "$N" = "6" ] || [ "$N" = "8" ] || [ "$N" = "10" ] || [ "$N" = "12" ] || [ "$N" = "14" ] || [ "$N" = "16" ] || [ "$N" = "18" ] || [ "$N" = "20" ]; } && sfx="2"
+sfx=""; { [ "$N" = "2" ] || [ "$N" = "4" ] || [ "$N" = "6" ] || [ "$N" = "8" ] || [ "$N" = "10" ] || [ "$N" = "12" ] || [ "$N" = "14" ] || [ "$N" = "16" ] || [ "$N" = "18" ] || [ "$N" = "20" ] || [ "$N" = "22" ]; } && sfx="2"
 PATCH=$OUT/patch$sfx.diff; DEMO=$OUT/demo$sfx; META=$OUT/meta$sfx.json
 if [ ! -f "$PATCH" ] && [ -f /verif/seeded/$ID-$N/patch.diff ]; then
   # the agents' scratch output is gone: rebuild it from what was kept under /verif/seeded
